@@ -29,7 +29,7 @@ fn gen_term(r: &mut Rng, nb: usize, depth: usize) -> ST {
 }
 fn gen_dataset(r: &mut Rng) -> Vec<Q> {
     let nb = r.range(1, 5);
-    match r.below(6) {
+    match r.below(7) {
         0 => { // cycle
             let p = iri("http://e/p"); (0..nb).map(|i| ([bnode(&format!("b{i}")), p.clone(), bnode(&format!("b{}", (i + 1) % nb))], None)).collect() }
         1 => { // clique with blank graph name
@@ -40,6 +40,7 @@ fn gen_dataset(r: &mut Rng) -> Vec<Q> {
             for i in 0..nb { v.push(([bnode("hub"), iri("http://e/q"), bnode(&format!("c0n{i}"))], None)); } v }
         3 => { // quoted triples with blank nodes
             (0..r.range(1, 4)).map(|_| ([triple(bnode(&format!("b{}", r.below(nb))), iri("http://e/p"), gen_term(r, nb, 1)), iri("http://e/q"), gen_term(r, nb, 0)], if r.chance(1, 3) { Some(bnode(&format!("b{}", r.below(nb)))) } else { None })).collect() }
+        5 => { let mut v: Vec<Q> = (0..r.range(1, 4)).map(|_| ([gen_ground(r), iri(&format!("http://e/{}", r.ps(&["p", "q"]))), gen_ground(r)], if r.chance(1, 2) { Some(iri("http://e/g")) } else { None })).collect(); v.push(([bnode("b0"), iri("http://e/p"), bnode("b1")], None)); v }
         _ => (0..r.range(1, 7)).map(|_| ([gen_term(r, nb, 1), iri(&format!("http://e/{}", r.ps(&["p", "q"]))), gen_term(r, nb, 2)], match r.below(4) { 0 => Some(gen_term(r, nb, 0)), _ => None })).collect(),
     }
 }
@@ -88,7 +89,15 @@ non-trivial = at least 2 blank nodes and the pair passes the size and blanked-st
         let mut expect_true = true;
         match variant {
             0 | 1 => {}
-            2 => { if let Some(q) = d2.first_mut() { q.0[1] = iri("http://e/CHANGED"); expect_true = false; } }
+            2 => { // one ground difference: a term in a random position, or the graph name (default <-> named)
+                if !d2.is_empty() { let k = r.below(d2.len()); let q = &mut d2[k];
+                    match r.below(5) {
+                        0 => q.0[1] = iri("http://e/CHANGED"),
+                        1 => q.0[0] = iri("http://e/CHANGED"),
+                        2 => q.0[2] = lit_dt("CHANGED", &format!("{XSD}string")),
+                        _ => q.1 = match &q.1 { None => Some(iri("http://e/g")), Some(_) => None },
+                    }
+                    expect_true = false; } }
             3 => { d2.push(([iri("http://e/extra"), iri("http://e/p"), bnode("fresh")], None)); expect_true = false; }
             4 => { // merge two blank nodes
                 let mut s = BTreeSet::new(); for q in &d2 { for t in q.0.iter() { bnodes(t, &mut s) } if let Some(g) = &q.1 { bnodes(g, &mut s) } }
